@@ -153,6 +153,7 @@ func main() {
 	run.Def(M, "reuse-after-failed-call", runReuse)
 	run.Def(M, "progress", runProgress)
 	run.Def(M, "errtext", runErrtext)
+	run.Def(M, "padded", runPadded)
 	M.Gen = generate
 	debug.SetGCPercent(400) // towers allocate tens of MB per path; trade memory (well below 2 GB) for GC time
 	if f := os.Getenv("C20_CPUPROFILE"); f != "" { // diagnostics for harness development only
@@ -333,6 +334,9 @@ func generate(w *run.W) {
 
 	// (i) formatting of errors below hostile paths
 	genErrtext(w, mine)
+
+	// (j) values and whitespace runs of every length around the buffer sizes
+	genPadded(w, mine)
 
 	// (f) hostile sweep
 	type sweepPlan struct {
